@@ -253,6 +253,7 @@ func (t *ImmutableTree) Iterator(start, end []byte, ascending bool) (corestore.I
 		}
 
 		if isFastCacheEnabled {
+			verifYield("iter:checked")
 			return NewFastIterator(start, end, ascending, t.ndb), nil
 		}
 	}
